@@ -406,6 +406,15 @@ def extra_one(which: str, ai: int, bidx: int):
             return [("exception", "annotated-parameter:" + type(e).__name__, f"({bn}) raised {e!r}", "")]
         # the source annotation is replicated; what must hold is that the stub as a whole evaluates
         return [(k, "annotated-parameter" if not s_.startswith("typed-dict") else s_, f"({bn}) " + m, text) for k, s_, m in check_stub(text, "tgt", tgt, [(((), "fann"), {"opts": dict}, None)], "annotated-parameter")]
+    if which == "gen-yield-and-return":
+        # a generator that yields dicts AND returns a dict: both generated classes are in the stub
+        Y, R = atd({"fy": cls[ai]}), atd({"fr": cls[(ai + 1) % len(cls)], "fy": int})
+        BN[(((), "g"), "return")] = "gen_td_td"
+        try:
+            text = build([CallTrace(tgt.g, {"x2": int}, R, Y)])["tgt"]
+        except Exception as e:  # noqa: BLE001
+            return [("exception", "generator-yield-and-return-typed-dicts:" + type(e).__name__, f"raised {e!r}", "")]
+        return [(k, "generator-yield-and-return-typed-dicts" if not s_.startswith("typed-dict") else s_, m, text) for k, s_, m in check_stub(text, "tgt", tgt, [(((), "g"), {"x2": int}, Generator[Y, None, R])], "generator-yield-and-return-typed-dicts")]
     if which == "k0-nested":
         BN[(((), "f"), "x1")] = bn
         try:
@@ -427,6 +436,7 @@ def extra_family(quick: bool) -> Result:
     for ai in ((0, 3) if quick else range(len(cls))):
         todo += [("annotated", ai, names.index(n)) for n in ("td", "td_opt", "List_td", "Dict", "plain")]
         todo += [("k0-nested", ai, names.index(n)) for n in NESTED_TD_BUILDERS]
+        todo += [("gen-yield-and-return", ai, 0)]
     for which, ai, bidx in todo:
         res.states += 1
         res.transitions += 2
@@ -440,7 +450,7 @@ def extra_family(quick: bool) -> Result:
             res.nontrivial_n += 1
         if not any(k in ("exception", "syntax") for k, *_ in vs):
             res.oblige("saw:extra:" + which, True)
-    for w in ("zero-arg", "annotated", "k0-nested"):
+    for w in ("zero-arg", "annotated", "k0-nested", "gen-yield-and-return"):
         res.obligations.setdefault("saw:extra:" + w, False)
     return res
 
